@@ -288,6 +288,27 @@ theorem full_false : ¬ FullStatement := by
   revert this
   decide
 
+/-! ### Holes read as zeros -/
+
+/-- A Write at or beyond the end of the contents leaves the old contents, then zeros up to the
+offset, then the new bytes — whatever was in the file (or in its buffer) before a truncation.  Both
+`Mem.step` and `Os.step` write through `Mem.writeAt`. -/
+theorem writeAt_hole (data p : List Nat) (pos : Nat) (h : data.length ≤ pos) :
+    (Mem.writeAt data pos p).1 = data ++ List.replicate (pos - data.length) 0 ++ p := by
+  unfold Mem.writeAt
+  have : ¬ pos < data.length := by omega
+  simp [this]
+
+/-- After `O_TRUNC` (contents `[]`), a Write of `p` at offset `pos` gives `pos` zeros then `p`. -/
+theorem writeAt_after_trunc (p : List Nat) (pos : Nat) :
+    (Mem.writeAt [] pos p).1 = List.replicate pos 0 ++ p := by
+  simpa using writeAt_hole [] p pos (by simp)
+
+/-- The seeded-change scenario in the model: write, truncate through a second handle, seek inside the
+old length, write: the hole is zeros on both filesystems. -/
+example : (runWith Mem.step {} [.open nA rwCreate, .write 0 [88, 88, 88, 88, 88], .open nA (fl 2 false false false false true),
+    .seek 1 4 0, .write 1 [97], .seek 0 0 0, .read 0 40]).2.getLast? = some (.data [0, 0, 0, 0, 97]) := by decide
+
 /-! ### Root and own-subtree clause -/
 
 theorem walkFrom_dir (t : Tree) : ∀ (rest done : Path), Mem.walkFrom t done rest = .ok () →
